@@ -134,7 +134,7 @@ def last_json(out, what, rc):
     try:
         return json.loads(out.strip().splitlines()[-1])
     except Exception:
-        raise Broken("%s failed (rc=%s): %s" % (what, rc, out[-1500:]))
+        crash_or_broken(rc, out, "hal_seq", what)      # a crash signal of the plain build: the wrappers crashed under a HAL call
 
 
 # ---------------------------------------------------------------------------------------------- code -> spec
@@ -237,7 +237,7 @@ def run_asan(exe, args, trace, what):
     crashed = None
     if rc != 0:
         if "AddressSanitizer" not in out and rc != 77:
-            raise Broken("%s (sanitizer build) failed rc=%s: %s" % (what, rc, out[-1500:]))
+            crash_or_broken(rc, out, "hal_seq_asan", what + " (sanitizer build)")
         kindline = [l for l in out.splitlines() if "ERROR: AddressSanitizer" in l]
         frames = [l.strip() for l in out.splitlines() if l.strip().startswith("#") and ("camera.c" in l or "storage.c" in l or "driver.c" in l)]
         crashed = (kindline[0].split("ERROR: AddressSanitizer:")[-1].strip()[:120] if kindline else "abort rc=%d" % rc)
